@@ -343,3 +343,156 @@ def cond_establishes_equal(e, const) -> Optional[bool]:
         if c is not None and c[0] in ('tuple', 'list') and tuple(c[1]) == (('const', const),):
             return (ops[0] == 'In') == bool(e.polarity)
     return None
+
+
+# ------------------------------------------------------------------------------------------------ must-call helpers do their work on every path
+def paths_skipping_loop(p: Project, cls_key, fi: FuncInfo, attr: str):
+    """A function that other rules require to be *called* (a wake-up, a cancellation sweep) must also *do* its work whoever calls it: the completing
+    paths of `fi` that never reach its loop over `self.<attr>` and whose conditions do not say that `self.<attr>` is empty.  Returns (loops, paths):
+    the loop statements over the attribute, and the offending paths."""
+    from .. import paths as _paths
+    loops = []
+    for n in walk_no_nested(fi.node):
+        if isinstance(n, ast.For) and any(self_attr(a) == attr for a in ast.walk(n.iter)):
+            loops.append(n)
+        elif isinstance(n, ast.While) and any(self_attr(a) == attr for a in ast.walk(n.test)):
+            loops.append(n)
+    lines = {n.lineno for n in loops}
+    if not loops:
+        return [], []
+    ex = _paths.Explorer(p, cls_key, tracked=set(), atomic={m for m in p.classes[cls_key].methods if m != fi.name} if cls_key in p.classes else set(),
+                         unroll=1, interrupt_edges=False)
+    bad = []
+    empties_true = {f'notself.{attr}', f'len(self.{attr})==0', f'len(self.{attr})<1', f'len(self.{attr})<=0'}
+    empties_false = {f'self.{attr}', f'len(self.{attr})', f'len(self.{attr})>0', f'len(self.{attr})!=0', f'len(self.{attr})>=1'}
+    for pa in ex.paths(fi):
+        if pa.raises or pa.status in ('loopcut', 'backedge'):
+            continue
+        if any(e.kind in ('foriter', 'loophead', 'loopexit', 'loopcut') and e.fi is not None and e.fi.key == fi.key
+               and (getattr(e, 'loop_line', None) in lines or e.line in lines) for e in pa.events):
+            continue
+        says_empty = False
+        for e in pa.events:
+            if e.kind == 'cond' and not e.d.get('synthetic'):
+                t = e.text.replace(' ', '').replace('(', '').replace(')', '') if False else e.text.replace(' ', '')
+                if (e.polarity and t in empties_true) or (not e.polarity and t in empties_false):
+                    says_empty = True
+        if not says_empty:
+            bad.append(pa)
+    return loops, bad
+
+
+# ------------------------------------------------------------------------------------------------ constructor wiring edge -> store
+def ctor_wiring(p: Project, ci, attr: str):
+    """How an Edge constructor parameterises its store: {store __init__ parameter: (expression as written, resolved expression text or None)}.
+    The call `self.<attr> = <StoreClass>(...)` in `ci.__init__` is bound against the signature of the store class's own `__init__` (positional and
+    keyword arguments alike); each argument is resolved through `self.X` attributes and locals that have exactly ONE unconditional assignment in
+    the constructor before the call.  `None` = the value depends on a branch / a re-assignment (not the configured value on every path)."""
+    init = ci.methods.get('__init__')
+    if init is None:
+        return None, {}
+    # statements in execution order (pre-order through if / else / try / with bodies), up to the statement that builds the store
+    order = []
+
+    def flat(stmts):
+        for st in stmts:
+            order.append(st)
+            for f in ('body', 'orelse', 'finalbody'):
+                if isinstance(getattr(st, f, None), list) and not isinstance(st, (ast.FunctionDef, ast.ClassDef, ast.Lambda)):
+                    flat(getattr(st, f))
+            for h in getattr(st, 'handlers', []) or []:
+                flat(h.body)
+    flat(init.node.body)
+    call = None
+    call_idx = None
+    for i, st in enumerate(order):
+        if isinstance(st, ast.Assign) and len(st.targets) == 1 and self_attr(st.targets[0]) == attr and isinstance(st.value, ast.Call):
+            call, call_idx = st.value, i
+            break
+    if call is None:
+        return None, {}
+    # signature of the store constructor
+    skeys = [k for k in p.attr_class(ci.key, attr)]
+    sig = None
+    for k in skeys:
+        for c in p.mro(k):
+            f = c.methods.get('__init__')
+            if f is not None:
+                sig = [a.arg for a in f.node.args.args if a.arg != 'self']
+                break
+        if sig:
+            break
+    if not sig:
+        return call, {}
+    bound = {}
+    for i, a in enumerate(call.args):
+        if i < len(sig):
+            bound[sig[i]] = a
+    for k in call.keywords:
+        if k.arg:
+            bound[k.arg] = k.value
+    # assignments that can reach the call (everything written before it, whatever branch it sits in)
+    params = {a.arg for a in init.node.args.args}
+    writes = {}
+    for st in order[:call_idx]:
+        if isinstance(st, (ast.Assign, ast.AugAssign, ast.AnnAssign)):
+            tgts = st.targets if isinstance(st, ast.Assign) else [st.target]
+            for t in tgts:
+                for x in (t.elts if isinstance(t, (ast.Tuple, ast.List)) else [t]):
+                    name = (self_attr(x) and f'self.{self_attr(x)}') or (x.id if isinstance(x, ast.Name) else None)
+                    if name:
+                        writes.setdefault(name, []).append(st.value if isinstance(st, ast.Assign) and not isinstance(t, (ast.Tuple, ast.List)) else None)
+        elif isinstance(st, (ast.For, ast.With)):
+            for x in ast.walk(st.target if isinstance(st, ast.For) else st):
+                if isinstance(x, ast.Name) and isinstance(x.ctx, ast.Store):
+                    writes.setdefault(x.id, []).append(None)
+    for n in ast.walk(init.node):
+        if isinstance(n, ast.NamedExpr) and isinstance(n.target, ast.Name):
+            writes.setdefault(n.target.id, []).append(None)
+
+    def resolve(e, depth=0):
+        """the constructor parameter (or constant) this expression is on EVERY path to the call, or None"""
+        t = ast.unparse(e)
+        if depth > 6:
+            return None
+        name = e.id if isinstance(e, ast.Name) else (t if self_attr(e) else None)
+        if name is not None:
+            ws = writes.get(name, [])
+            if not ws:
+                return name if name in params else None
+            if name in params:
+                ws = ws + [ast.Name(id='\x00param:' + name, ctx=ast.Load())]
+            vals = set()
+            for w in ws:
+                if w is None:
+                    return None
+                if isinstance(w, ast.Name) and w.id.startswith('\x00param:'):
+                    vals.add(w.id[7:])
+                else:
+                    vals.add(resolve(w, depth + 1))
+            return vals.pop() if len(vals) == 1 else None
+        if isinstance(e, ast.Constant):
+            return repr(e.value)
+        return None
+    return call, {k: (ast.unparse(v), resolve(v)) for k, v in bound.items()}
+
+
+def check_ctor_wiring(p: Project, r, rule: str, ci, attr: str, want: dict, why: str):
+    """`want`: store parameter -> constructor parameter of the edge that must reach it unchanged."""
+    init = ci.methods.get('__init__')
+    call, got = ctor_wiring(p, ci, attr)
+    r.analysed_functions.add(init.key if init else ci.label)
+    for sp, ep in want.items():
+        key = f'{ci.label}.__init__::store-parameter({sp})'
+        if call is None:
+            r.fail(rule, key, f'no unconditional `self.{attr} = <store>(...)` in the constructor', src(ci.module), ci.node.lineno)
+            continue
+        if sp not in got:
+            r.fail(rule, key, f'the store is built without `{sp}`: it runs with its own default instead of the configured `{ep}`; {why}', src(ci.module), call.lineno)
+            continue
+        written, res = got[sp]
+        if res == ep:
+            r.ok(rule, key, f'`{written}` is the constructor argument `{ep}`, unchanged', src(ci.module), call.lineno)
+        else:
+            r.fail(rule, key, f'the store parameter `{sp}` receives `{written}`' + (f' = `{res}`' if res else ' (a value that depends on a branch or is re-assigned)')
+                   + f', not the configured `{ep}` unchanged; {why}', src(ci.module), call.lineno)
